@@ -11,7 +11,14 @@ Decided clauses so far:
     name == "help": first argument a Value(n) -> Command(n, remaining args); no argument -> All; anything else ->
     not a request. Other names: request (for the unchanged command) iff `any` argument equals
     LongOption("help") or ShortOption('h').
- T  completeness of derive-generated help (tables vs. declaration oracle): see rules/tables.py.
+ T  derive-generated help against the declaration oracle (fixtures/decls), by abstract exploration of the generated code
+    (analysis/genfsm.py): `list_commands` prints the title and every command exactly once with its summary, in order;
+    `command_count` is their number; groups list exactly their visible members; `command_help` answers an undeclared name
+    with UnknownCommand; for every argument word up to the depth bound the option-skipping walker either prints the
+    command's own help or delegates to the sub-command type with the right token as its name (a value-taking parent
+    option consumes exactly one value; flags none); the command's own help has the usage line (parent path, name,
+    [OPTIONS], positionals, <COMMAND>), every positional under Arguments, every option with its short/long/value name
+    plus `-h, --help` under Options, and the sub-command list iff there is one.
 Not decided: text layout beyond the constants.
 """
 from .. import facts as F
@@ -81,4 +88,180 @@ def run(ctx, res):
     if seen_help:
         from . import decision
         decision.check_from_command(ctx, res)
+        check_generated_help(ctx, res, lib_crate(ctx.crates('default')))
     res.exhaustive = True
+
+
+# ---------------------------------------------------------------------------------------------
+# T: derive-generated help (tables and walker) against the declaration oracle
+
+def _opt_label(o):
+    parts = []
+    if o.get('short'):
+        parts.append('-' + o['short'])
+    if o.get('long'):
+        parts.append('--' + o['long'])
+    s = ", ".join(parts)
+    if o['kind'] != 'flag':
+        s += (" <%s>" if (o.get('required') or o.get('default')) else " [%s]") % o['value_name']
+    return s
+
+
+def check_generated_help(ctx, res, lib):
+    import json
+    import os
+    from .. import genfsm
+    from .common import strip_crate
+    oracle = json.load(open(os.path.join(F.VERIF, 'fixtures', 'decls', 'oracle.json')))
+    crate = ctx.crates('decls')['decls']
+    depth = 4 if ctx.tier == 'thorough' else 3
+    by_type = {}
+    for f in crate.fns:
+        if strip_crate(f.impl_trait) == 'service::Help' and f.expn and 'Derive' in f.expn and f.kind == 'AssocFn':
+            tk = F.norm_path(f.impl_self['path']) if f.impl_self and f.impl_self.get('k') == 'adt' else None
+            by_type.setdefault(tk, {})[f.name] = f
+    n = 0
+    for tk, orc in oracle.items():
+        if not isinstance(orc, dict) or 'kind' not in orc:
+            continue
+        fns = by_type.get(tk)
+        if not fns:
+            raise KeyError("no derived Help impl found for %s" % tk)
+        if orc['kind'] == 'group':
+            visible = [m['type'] for m in orc['members'] if not m['hidden'] and m['type'] != 'command::RawCommand'] + \
+                      [m['type'] for m in orc['members'] if not m['hidden'] and m['type'] == 'command::RawCommand']
+            visible = [m['type'] for m in orc['members'] if not m['hidden']]
+            out, rule, I = genfsm.explore([crate, lib], fns['list_commands'], '-', [], 0, 'help')
+            for word, rs in out.items():
+                subs = [e[1] for e in word if e[0] == 'sublist']
+                # members with no commands (RawCommand catch-all: command_count() == 0) may be skipped
+                want = [t for t in visible]
+                good = [t for t in subs if t in want] == subs and set(t for t in want if t != 'command::RawCommand') <= set(subs) \
+                    and len(subs) == len(set(subs))
+                res.oblige("T|group-list|%s|%s" % (tk, subs), good, violation=None if good else dict(
+                    rule='C12.group-list', key="C12|group-list|%s" % tk,
+                    msg="derived Help for group %s lists the commands of %s, the declaration's visible members are %s" % (tk, subs, visible)))
+            n += 1
+            continue
+        cmds = orc['commands']
+        # list_commands
+        out, rule, I = genfsm.explore([crate, lib], fns['list_commands'], '-', [], 0, 'help')
+        for word, rs in out.items():
+            items = [e[2] for e in word if e[0] == 'out' and e[1] == 'write_list_element']
+            titles = [e[2] for e in word if e[0] == 'out' and e[1] == 'write_title']
+            want = ["%s|%s" % (c['name'], c['summary']) for c in cmds]
+            good = items == want and titles[:1] == [orc['title'] + ':']
+            res.oblige("T|list|%s" % tk, good, sample="%s lists %s" % (tk, items), violation=None if good else dict(
+                rule='C12.list', key="C12|list|%s" % tk,
+                msg="derived Help::list_commands for %s prints title %s and entries %s; the declaration has title %r and %s"
+                    % (tk, titles[:1], items, orc['title'] + ':', want)))
+        # command_count
+        cc = fns.get('command_count')
+        if cc is not None:
+            I2 = Interp([crate, lib], None)
+            vals = {int_singleton_(rv) for w, rv in I2.run(cc, [], None, {})}
+            good = vals == {len(cmds)}
+            res.oblige("T|count|%s" % tk, good, violation=None if good else dict(
+                rule='C12.count', key="C12|count|%s" % tk,
+                msg="derived Help::command_count for %s returns %s, the declaration has %d commands" % (tk, sorted(vals, key=str), len(cmds))))
+        # command_help: walker and own help
+        for cmd in cmds + [{'name': 'zz-undeclared-command', '_unknown': True}]:
+            syms = genfsm.alphabet(cmd)
+            d = depth if cmd.get('subcommand') else 1
+            out, rule, I = genfsm.explore([crate, lib], fns['command_help'], cmd['name'], syms, d, 'help')
+            n += 1
+            if cmd.get('_unknown'):
+                good = bool(out) and all(rs == {'Err(UnknownCommand{})'} for rs in out.values())
+                res.oblige("T|unknown|%s" % tk, good, violation=None if good else dict(
+                    rule='C12.unknown', key="C12|unknown|%s" % tk,
+                    msg="derived Help::command_help for %s does not answer an undeclared command with UnknownCommand" % tk))
+                continue
+            bad = []
+            own_checked = False
+            for word, rs in out.items():
+                inputs = tuple(e for e in word if e[0] in ('L', 'S', 'V', 'DD', 'END'))
+                exp = genfsm.ref_help(cmd, inputs)
+                if exp is None:
+                    continue
+                sub = [e for e in word if e[0] == 'subhelp']
+                if sub:
+                    t = sub[0][1]
+                    arg = sub[0][2]
+                    try:
+                        vi = int(arg.split('cmd(v')[1].split(',')[0])
+                    except (IndexError, ValueError):
+                        vi = -1
+                    got = ('sub', t, vi)
+                else:
+                    got = ('own',)
+                res.obligations += 1
+                res.evaluations += 1
+                if got == exp:
+                    res.discharged += 1
+                else:
+                    bad.append((inputs, got, exp))
+                if got == ('own',) and exp == ('own',) and not own_checked:
+                    own_checked = True
+                    check_own_help(res, tk, cmd, word)
+            res.distinct.add("T|walker|%s|%s" % (tk, cmd['name']))
+            if bad:
+                bad.sort(key=lambda x: (len(x[0]), str(x[0])))
+                w_, got, exp = bad[0]
+                from .C09 import fmt_word
+                res.add_violation(dict(
+                    rule='C12.walker', key="C12|walker|%s|%s" % (tk, cmd['name']),
+                    msg="derived help of %s, command `%s`: for the line `%s %s` it %s, the statement requires it to %s (%d words differ)" % (
+                        tk, cmd['name'], cmd['name'], fmt_word(w_),
+                        "prints the command's own help" if got == ('own',) else "delegates to %s with the token at position %d as sub-command" % got[1:],
+                        "print the command's own help" if exp == ('own',) else "delegate to %s with the token at position %d as sub-command" % exp[1:],
+                        len(bad))))
+    if n < 20:
+        raise KeyError("only %d generated help functions explored" % n)
+
+
+def int_singleton_(v):
+    if v[0] == 'int' and v[2] is None and len(v[1]) == 1:
+        return next(iter(v[1]))
+    return str(v[:2])
+
+
+def check_own_help(res, tk, cmd, word):
+    outs = [e for e in word if e[0] in ('out', 'parent', 'sublist')]
+    texts = [e[2] for e in outs if e[0] == 'out']
+    items = [e[2].split('|')[0] for e in outs if e[0] == 'out' and e[1] == 'write_list_element']
+    # usage line: title, parent path, name, then the pieces
+    def ob(clause, good, msg):
+        res.oblige("T|own|%s|%s|%s" % (tk, cmd['name'], clause), good, violation=None if good else dict(
+            rule='C12.help-text', key="C12|help-text|%s|%s|%s" % (tk, cmd['name'], clause),
+            msg="derived help of %s, command `%s`: %s (printed: %s)" % (tk, cmd['name'], msg, texts[:30])))
+    try:
+        iu = [i for i, e in enumerate(outs) if e[0] == 'out' and e[1] == 'write_title' and e[2].startswith('Usage')][0]
+    except IndexError:
+        ob('usage', False, "no usage line")
+        return
+    after = outs[iu + 1:]
+    ip = [i for i, e in enumerate(after) if e[0] == 'parent']
+    ob('usage-path', bool(ip) and len(after) > ip[0] + 1 and after[ip[0] + 1][0] == 'out' and after[ip[0] + 1][2] == cmd['name'],
+       "the usage line does not print the parent path followed by the command name")
+    usage_tail = []
+    for e in after[(ip[0] + 2) if ip else 0:]:
+        if e[0] == 'out' and e[1] == 'write_str':
+            usage_tail.append(e[2].strip())
+        else:
+            break
+    usage_tail = [t for t in usage_tail if t]
+    want = (['[OPTIONS]'] if cmd.get('options') else []) + [p['usage'] for p in cmd.get('positionals', [])] + \
+           (['<COMMAND>'] if cmd.get('subcommand') else [])
+    ob('usage-pieces', [t for t in usage_tail if t != '[OPTIONS]'] == [t for t in want if t != '[OPTIONS]']
+       and (('[OPTIONS]' in usage_tail) or not cmd.get('options')),
+       "the usage line has %s, the declaration requires %s" % (usage_tail, want))
+    for p in cmd.get('positionals', []):
+        ob('arg:' + p['field'], p['usage'] in items, "positional %s is missing from the Arguments list" % p['usage'])
+    for o in cmd.get('options', []):
+        lab = _opt_label(o)
+        ob('opt:' + o['field'], lab in items, "option `%s` is missing from the Options list" % lab)
+    ob('opt:help', '-h, --help' in items, "`-h, --help` is missing from the Options list")
+    has_sub = any(e[0] == 'sublist' for e in outs)
+    ob('subcommands', has_sub == bool(cmd.get('subcommand')), "the sub-command list is %s" % ('missing' if cmd.get('subcommand') else 'unexpected'))
+    if cmd.get('summary'):
+        ob('summary', any(t.startswith(cmd['summary'].split(' continues')[0][:20]) for t in texts), "the description is not printed")
